@@ -4,6 +4,7 @@ package main
 // (interface-method specs), function values.
 
 import (
+	"math/big"
 	"fmt"
 	"go/types"
 	"sort"
@@ -577,6 +578,55 @@ func init() {
 	m.fams["E$uint8"] = "Int"
 	m.allocs = true
 	intrinsicMods["strconv.AppendFloat"] = m
+
+	// strconv.AppendUint(dst, u, 10): appends the decimal digits of u (no sign,
+	// no leading zero): n = number of digits, all bytes are digits and their
+	// decimal value (jsonDec20, the positional-notation definition) is u.
+	intrinsics["strconv.AppendUint"] = func(fr *Frame, x *ssa.Call, args []Val, st *State, rch Term) Val {
+		vc := fr.vc
+		dst := args[0]
+		u := args[1].t()
+		if args[2].t() != "10" {
+			unsup("strconv.AppendUint with base %s", args[2].t())
+		}
+		n := vc.fresh("appenduint.n", "Int")
+		// 10^(n-1) <= u < 10^n (n = 1 for u < 10)
+		var cs []Term
+		cs = append(cs, sx("<=", "1", n), sx("<=", n, "20"))
+		p10 := big.NewInt(1)
+		for k := 1; k <= 20; k++ {
+			lo := new(big.Int).Set(p10)
+			p10 = new(big.Int).Mul(p10, big.NewInt(10))
+			if k == 1 {
+				cs = append(cs, sx("=", eq(n, "1"), sx("<", u, "10")))
+				continue
+			}
+			cs = append(cs, sx("=", eq(n, itoa(int64(k))), and(sx("<=", lo.String(), u), sx("<", u, p10.String()))))
+		}
+		vc.assume(and(cs...))
+		newLen := vc.define("aulen", "Int", add(dst.C[1], n))
+		inPlace := vc.define("auinpl", "Bool", sx("<=", newLen, dst.C[2]))
+		newCap := vc.fresh("aucap", "Int")
+		vc.assume(and(sx("<=", newLen, newCap), sx("<=", newCap, maxLenT)))
+		a := vc.get(st, "$alloc")
+		fresh := vc.define("aunew", "Int", a)
+		vc.assume(sx("<", "0", fresh))
+		vc.set(st, "$alloc", ite(inPlace, a, sx("+", a, newCap, "1")))
+		arr := vc.define("auarr", "Int", ite(inPlace, dst.C[0], fresh))
+		cp := vc.define("aucp", "Int", ite(inPlace, dst.C[2], newCap))
+		fr.copyRegion(types.Typ[types.Uint8], fresh, dst.C[0], dst.C[1], st, not(inPlace), true)
+		vc.havocElems(types.Typ[types.Uint8], adr(arr, dst.C[1]), n, st, fr)
+		h := vc.get(st, "E$uint8")
+		base := adr(arr, dst.C[1])
+		var bs []Term
+		bs = append(bs, n)
+		for k := 0; k < 20; k++ {
+			bs = append(bs, vc.sel(h, adr(base, itoa(int64(k)))))
+		}
+		vc.assume(and(sx("jsonAllDigits20", bs...), eq(sx("jsonDec20", bs...), u)))
+		return Val{T: x.Type(), C: []Term{arr, newLen, cp}}
+	}
+	intrinsicMods["strconv.AppendUint"] = m
 
 	// utf8.DecodeRuneInString(s): 1 <= size <= min(4, len(s)) for non-empty s;
 	// an ASCII byte decodes to itself with size 1; a multi-byte result consists
